@@ -351,7 +351,7 @@ def enum_cases(tier):
 def strategy(tier):
     return st.fixed_dictionaries({
         "kind": st.just("generated"),
-        "db": gen_db.db_specs(kinds=gen_db.KINDS_ALL, max_sites=8, max_alleles=10, sv=True, pseudo=True, stress=True, gaps=True, small=True),
+        "db": gen_db.db_specs(kinds=gen_db.KINDS_ALL, max_sites=8, max_alleles=10, sv=True, pseudo=True, stress=True, gaps=True, small=True, keep_lost=True),
     })
 
 
